@@ -43,6 +43,8 @@ pub struct Program {
     /// sequential epilogue (probes), each followed by quiescence, outside the window
     pub post: Vec<Op>,
     pub monitor: MonitorKind,
+    /// larger program, explored in the thorough tier only
+    pub thorough_only: bool,
 }
 
 impl Program {
@@ -59,6 +61,7 @@ impl Program {
             quiesce_batches: true,
             post: vec![],
             monitor: MonitorKind::None,
+            thorough_only: false,
         }
     }
     pub fn describe(&self) -> Value {
@@ -583,6 +586,11 @@ pub fn choices_of(doc: &Value) -> Result<Vec<u32>, String> {
         .as_array()
         .ok_or_else(|| "replay file has no schedule".to_string())
         .map(|a| a.iter().map(|x| x.as_u64().unwrap_or(0) as u32).collect())
+}
+
+/// Drop the programs reserved for the thorough tier when running the quick one.
+pub fn for_tier(ps: Vec<Program>, quick: bool) -> Vec<Program> {
+    ps.into_iter().filter(|p| !(quick && p.thorough_only)).collect()
 }
 
 /// A program explored with the bounds chosen per tier by `cfg_of`.
